@@ -188,6 +188,25 @@ fn main() {
         };
         emit(op, mu, rng.below(1 << 32), &stack, false);
     }
+    // 3b. offspring that contain exact clones of parents (same solution and objective), as produced by
+    //     `All` selection followed by a variation that leaves some individuals unchanged.
+    let n_clone = if a.thorough { 20000 } else { 3000 };
+    for _ in 0..n_clone {
+        let pa = 1 + rng.below(6) as usize;
+        let pobjs: Vec<f64> = (0..pa).map(|_| *rng.pick(&grid)).collect();
+        let pp: Vec<String> = pobjs.iter().enumerate().map(|(i, o)| list([(i + 1).to_string(), fx(*o)])).collect();
+        let ob = if rng.chance(1, 2) { pa } else { rng.below(7) as usize };
+        let oo: Vec<String> = (0..ob).map(|j| {
+            if rng.chance(2, 3) { pp[rng.below(pa as u64) as usize].clone() } else { list([(101 + j).to_string(), fx(*rng.pick(&grid))]) }
+        }).collect();
+        let stack = vec![tagged("pop", oo), tagged("pop", pp)];
+        let op = *rng.pick(&["discard", "generational", "merge", "mupl", "mupl", "mupl", "rand", "rand", "keepbetter"]);
+        let mu = match op {
+            "mupl" | "rand" | "generational" => Some(rng.below((pa + ob) as u64 + 2)),
+            _ => None,
+        };
+        emit(op, mu, rng.below(1 << 32), &stack, false);
+    }
     // 4. malformed stream (outside the property's quantifier): fewer than two populations,
     //    unevaluated individuals. Only the model's prediction (Err / panic / stack left) is compared.
     let n_mal = if a.thorough { 4000 } else { 600 };
